@@ -41,6 +41,9 @@ static void b_setopt_pcb_int(unsigned n)
 	CHECK("C14", g_pcb_calls <= 1 && (r == NULL || g_pcb_calls == 1), "the value-parsing callback is invoked exactly once per stored value (never twice; not at all only when the slot could not be allocated)");
 	CHECK("C14", g_pcb_calls == 0 || (g_pcb_cfg == &cfg && g_pcb_opt == &o && g_pcb_text == text), "the value-parsing callback receives the context, the option and the token text");
 	CHECK("C14", g_pcb_calls == 0 || ((g_pcb_ret != 0) == (r == NULL)), "a non-zero result of the value-parsing callback fails the assignment, zero succeeds");
+#ifdef CFGV_NO_ALLOC_FAILURE
+	CHECK("C14", g_pcb_calls == 1, "the value-parsing callback is consulted (no allocation failure in this unit)");
+#endif
 	if (r) {
 		CHECK("C14", r->number == g_pcb_long, "the stored value is the one the parsing callback produced");
 		CHECK("C01,C09", APPENDS(n) ? (o.nvalues == ((k_flags & CFGF_RESET) ? 1 : n + 1) && r == o.values[o.nvalues - 1]) : (o.nvalues == n && r == o.values[0]),
@@ -76,6 +79,9 @@ static void b_setopt_pcb_fb(unsigned n)
 	CHECK("C14", g_pcb_calls <= 1 && (r == NULL || g_pcb_calls == 1), "float / boolean option: the value-parsing callback is invoked exactly once per stored value");
 	CHECK("C14", g_pcb_calls == 0 || (g_pcb_cfg == &cfg && g_pcb_opt == &o && g_pcb_text == text), "float / boolean option: the value-parsing callback receives the context, the option and the token text");
 	CHECK("C14", g_pcb_calls == 0 || ((g_pcb_ret != 0) == (r == NULL)), "float / boolean option: a non-zero result of the value-parsing callback fails the assignment, zero succeeds");
+#ifdef CFGV_NO_ALLOC_FAILURE
+	CHECK("C14", g_pcb_calls == 1, "float / boolean option: the value-parsing callback is consulted (no allocation failure in this unit)");
+#endif
 	if (r) {
 		CHECK("C14", k_pcb_type == CFGT_FLOAT ? r->fpnumber == g_pcb_double : r->boolean == g_pcb_bool, "float / boolean option: the stored value is the one the parsing callback produced");
 		CHECK("C01,C09", APPENDS(n) ? (o.nvalues == ((k_flags & CFGF_RESET) ? 1 : n + 1) && r == o.values[o.nvalues - 1]) : (o.nvalues == n && r == o.values[0]),
@@ -153,6 +159,9 @@ static void b_setopt_ptr(unsigned n)
 	if (!hascb) CHECK("C09", r == NULL && g_freecb_calls == 0, "a pointer option without parse callback cannot be set from text");
 	else {
 		CHECK("C14", g_pcb_calls <= 1 && (r == NULL || g_pcb_calls == 1), "pointer option: the parsing callback is invoked exactly once per stored value");
+#ifdef CFGV_NO_ALLOC_FAILURE
+		CHECK("C14", g_pcb_calls == 1 && (g_pcb_ret != 0 || r != NULL), "pointer option: the parsing callback is consulted and its value stored (no allocation failure in this unit)");
+#endif
 		if (g_pcb_calls == 0) CHECK("C07", g_freecb_calls == 0, "pointer option: nothing is released when the slot could not be allocated");
 		else if (g_pcb_ret != 0) {
 			CHECK("C14", r == NULL, "pointer option: a failing parse callback fails the assignment");
